@@ -21,6 +21,7 @@ CONSTANTS
   Faults = {}
   AdvMsgs = {}
   MaxAdv = 0
+  Bridgers = {}
   MaxHandles = 2
   MaxCtr = 3
 VIEW View
